@@ -821,7 +821,51 @@ fn run_selector_case(vals: &[i64]) -> Option<(String, String, String)> {
     }
     None
 }
+// the same through a running store: subscribe_with_selector, a reducer that sets the state to the action;
+// the selected value of the initial state equals the first selected value when vals[0] == 0
+fn run_selector_store_case(vals: &[i64]) -> Option<(String, String, String)> {
+    struct Sel10;
+    impl Selector<St, i64> for Sel10 {
+        fn select(&self, s: &St) -> i64 {
+            *s % 10
+        }
+    }
+    struct SetRd;
+    impl Reducer<St, Ac> for SetRd {
+        fn reduce(&self, _s: &St, a: &Ac) -> DispatchOp<St, Ac> {
+            DispatchOp::Dispatch(*a, None)
+        }
+    }
+    let store = StoreBuilder::<St, Ac>::new(0).with_reducer(Box::new(SetRd)).build().unwrap();
+    let calls: Arc<Mutex<Vec<(i64, Ac)>>> = Arc::new(Mutex::new(vec![]));
+    let c2 = calls.clone();
+    let _h = store.subscribe_with_selector(Sel10, move |v: i64, a: Ac| c2.lock().unwrap().push((v, a)));
+    let mut exp: Vec<(i64, Ac)> = vec![];
+    for (i, v) in vals.iter().enumerate() {
+        let action = 10 * (i as i64 + 1) + v;
+        store.dispatch(action).unwrap();
+        if i == 0 || vals[i - 1] != *v {
+            exp.push((*v, action));
+        }
+    }
+    store.stop();
+    let got = calls.lock().unwrap().clone();
+    if got != exp {
+        return Some(("O-C16-subscribe_with_selector".into(), format!("callback invocations through a store {:?}", exp), format!("{:?}", got)));
+    }
+    None
+}
 fn suite_selector() -> Option<String> {
+    for len in 1..=3usize {
+        for code in 0..3usize.pow(len as u32) {
+            let mut c = code;
+            let vals: Vec<i64> = (0..len).map(|_| { let v = (c % 3) as i64; c /= 3; v }).collect();
+            if let Some((ob, exp, got)) = run_selector_store_case(&vals) {
+                let s: Vec<String> = vals.iter().map(|x| x.to_string()).collect();
+                return Some(found("selector", &ob, format!("selector store vals={}", s.join(",")), exp, got));
+            }
+        }
+    }
     for len in 0..=(if thorough() { 8usize } else { 5usize }) {
         for code in 0..3usize.pow(len as u32) {
             let mut c = code;
@@ -836,6 +880,9 @@ fn suite_selector() -> Option<String> {
 }
 fn replay_selector(case: &str) -> Option<String> {
     let vals: Vec<i64> = case.split_whitespace().find_map(|t| t.strip_prefix("vals=")).unwrap_or("").split(',').filter(|x| !x.is_empty()).map(|x| x.parse().unwrap()).collect();
+    if case.contains(" store ") {
+        return run_selector_store_case(&vals).map(|(ob, exp, got)| found("selector", &ob, case.to_string(), exp, got));
+    }
     run_selector_case(&vals).map(|(ob, exp, got)| found("selector", &ob, case.to_string(), exp, got))
 }
 
@@ -885,7 +932,125 @@ fn run_subs_case(n: usize, target: usize, droppable: bool) -> Option<(String, St
     }
     None
 }
+
+// a subscriber that unsubscribes itself while it is being notified of action 1 ("once" subscriber): the
+// subscribers registered for the whole run must still see every action (C03), and everybody is released once (C09)
+struct OnceSb {
+    id: usize,
+    log: Log,
+    me: Arc<Mutex<Option<Box<dyn Subscription>>>>,
+}
+impl Subscriber<St, Ac> for OnceSb {
+    fn on_notify(&self, state: &St, action: &Ac) {
+        self.log.lock().unwrap().push(Ev::Notify(self.id, *state, *action));
+        let h = self.me.lock().unwrap().take();
+        if let Some(h) = h {
+            h.unsubscribe();
+        }
+    }
+    fn on_unsubscribe(&self) {
+        self.log.lock().unwrap().push(Ev::Unsub(self.id));
+    }
+}
+fn run_subs_selfunsub(n: usize, k: usize) -> Option<(String, String, String)> {
+    let log: Log = Arc::new(Mutex::new(vec![]));
+    let store = StoreBuilder::<St, Ac>::new(0).with_reducer(Box::new(Rd { id: 0, cfg: RCfg { dispatch: true, effect: 0 }, log: log.clone() })).build().unwrap();
+    let me: Arc<Mutex<Option<Box<dyn Subscription>>>> = Arc::new(Mutex::new(None));
+    let mut keep = vec![];
+    for i in 0..n {
+        if i == k {
+            let h = store.add_subscriber(Arc::new(OnceSb { id: i, log: log.clone(), me: me.clone() }));
+            *me.lock().unwrap() = Some(h);
+        } else {
+            keep.push(store.add_subscriber(Arc::new(Sb { id: i, log: log.clone() })));
+        }
+    }
+    store.dispatch(1).unwrap();
+    store.dispatch(2).unwrap();
+    store.stop();
+    let got = log.lock().unwrap().clone();
+    for i in 0..n {
+        let seen: Vec<Ac> = got.iter().filter_map(|e| match e { Ev::Notify(j, _, a) if *j == i => Some(*a), _ => None }).collect();
+        if i != k && seen != vec![1, 2] {
+            return Some(("O-C03-do_notify-trace".into(), format!("subscriber {} (registered for the whole run) is notified of actions [1, 2] although subscriber {} unsubscribes itself during action 1", i, k), format!("{:?}", seen)));
+        }
+        if i == k && (seen.is_empty() || seen[0] != 1 || seen.len() > 2) {
+            return Some(("O-C03-do_notify-trace".into(), format!("subscriber {} is notified of action 1", i), format!("{:?}", seen)));
+        }
+        let un = got.iter().filter(|e| **e == Ev::Unsub(i)).count();
+        if un != 1 {
+            return Some(("O-C09-clear-releases-each-once".into(), format!("subscriber {} released exactly once", i), format!("{} times", un)));
+        }
+    }
+    None
+}
+
+// unsubscribe() of one subscriber racing with the release of all subscribers at shutdown: subscriber 0 parks
+// inside on_unsubscribe while stop() is releasing; subscriber 1 is unsubscribed (twice) from another thread meanwhile.
+// Each subscriber must be released exactly once (C09).
+struct ParkSb {
+    id: usize,
+    log: Log,
+    entered: Mutex<std::sync::mpsc::Sender<()>>,
+    gate: Mutex<std::sync::mpsc::Receiver<()>>,
+}
+impl Subscriber<St, Ac> for ParkSb {
+    fn on_notify(&self, state: &St, action: &Ac) {
+        self.log.lock().unwrap().push(Ev::Notify(self.id, *state, *action));
+    }
+    fn on_unsubscribe(&self) {
+        self.log.lock().unwrap().push(Ev::Unsub(self.id));
+        let _ = self.entered.lock().unwrap().send(());
+        let _ = self.gate.lock().unwrap().recv_timeout(Duration::from_secs(5));
+    }
+}
+fn run_subs_stoprace() -> Option<(String, String, String)> {
+    use std::sync::mpsc;
+    let log: Log = Arc::new(Mutex::new(vec![]));
+    let store = StoreBuilder::<St, Ac>::new(0).with_reducer(Box::new(Rd { id: 0, cfg: RCfg { dispatch: true, effect: 0 }, log: log.clone() })).build().unwrap();
+    let (entered_tx, entered_rx) = mpsc::channel::<()>();
+    let (gate_tx, gate_rx) = mpsc::channel::<()>();
+    let _h0 = store.add_subscriber(Arc::new(ParkSb { id: 0, log: log.clone(), entered: Mutex::new(entered_tx), gate: Mutex::new(gate_rx) }));
+    let h1 = store.add_subscriber(Arc::new(Sb { id: 1, log: log.clone() }));
+    let _h2 = store.add_subscriber(Arc::new(Sb { id: 2, log: log.clone() }));
+    store.dispatch(1).unwrap();
+    let s2 = store.clone();
+    let stopper = std::thread::spawn(move || s2.stop());
+    if entered_rx.recv_timeout(Duration::from_secs(5)).is_err() {
+        let _ = gate_tx.send(());
+        let _ = stopper.join();
+        return None; // shutdown did not reach the release within the time limit: no verdict
+    }
+    let (done_tx, done_rx) = mpsc::channel::<()>();
+    let unsub = std::thread::spawn(move || {
+        h1.unsubscribe();
+        h1.unsubscribe();
+        let _ = done_tx.send(());
+    });
+    let _ = done_rx.recv_timeout(Duration::from_millis(500));
+    let _ = gate_tx.send(());
+    let _ = stopper.join();
+    let _ = unsub.join();
+    let got = log.lock().unwrap().clone();
+    for i in 0..3usize {
+        let un = got.iter().filter(|e| **e == Ev::Unsub(i)).count();
+        if un != 1 {
+            return Some(("O-C09-clear-releases-each-once".into(), format!("subscriber {} released exactly once (unsubscribe of subscriber 1 racing with the release at shutdown)", i), format!("{} times", un)));
+        }
+    }
+    None
+}
 fn suite_subs() -> Option<String> {
+    for n in 2..=3usize {
+        for k in 0..n {
+            if let Some((ob, exp, got)) = run_subs_selfunsub(n, k) {
+                return Some(found("subs", &ob, format!("subs selfunsub n={} k={}", n, k), exp, got));
+            }
+        }
+    }
+    if let Some((ob, exp, got)) = run_subs_stoprace() {
+        return Some(found("subs", &ob, "subs stoprace".to_string(), exp, got));
+    }
     for n in 1..=4usize {
         for target in 0..=n {
             for droppable in [false, true] {
@@ -898,6 +1063,20 @@ fn suite_subs() -> Option<String> {
     None
 }
 fn replay_subs(case: &str) -> Option<String> {
+    if case.contains("stoprace") {
+        return run_subs_stoprace().map(|(ob, exp, got)| found("subs", &ob, case.to_string(), exp, got));
+    }
+    if case.contains("selfunsub") {
+        let (mut n, mut k) = (2usize, 0usize);
+        for tok in case.split_whitespace() {
+            if let Some(v) = tok.strip_prefix("n=") {
+                n = v.parse().unwrap();
+            } else if let Some(v) = tok.strip_prefix("k=") {
+                k = v.parse().unwrap();
+            }
+        }
+        return run_subs_selfunsub(n, k).map(|(ob, exp, got)| found("subs", &ob, case.to_string(), exp, got));
+    }
     let (mut n, mut t, mut d) = (1, 0, false);
     for tok in case.split_whitespace() {
         if let Some(v) = tok.strip_prefix("n=") {
@@ -1253,7 +1432,7 @@ fn run_channeled_overfill(cap: usize, default_api: bool) -> Option<(String, Stri
     None
 }
 fn suite_channeled() -> Option<String> {
-    for (cap, default_api) in [(1usize, false), (3, false), (0, true)] {
+    for (cap, default_api) in [(1usize, false), (3, false), (0, true), (40, false)] {
         if let Some((ob, exp, got)) = run_channeled_overfill(cap, default_api) {
             return Some(found("channeled", &ob, format!("channeled overfill cap={} default_api={}", cap, default_api as u8), exp, got));
         }
